@@ -424,9 +424,40 @@ func jsonKey(f reflect.StructField) (string, bool) {
 
 // genericType mirrors Model.ConfigCodec.expandTy: scalars, untyped holes (not RawMessage), generic v2 structs without
 // custom marshalers / embedded fields / external field types, slices, string-keyed maps, pointers to scalars or structs.
+// classified: custom pairs the extractor classifies from their method bodies (Gen/ConfigPairs.lean) and the model unfolds:
+// mirror / metadata wrappers go through their embedded (or private) config struct, boxed ones through their single field.
+// The driver answers `E` for a struct it cannot unfold, so a pair that is no longer recognised shows up as a broken tie.
+var classified = map[string]reflect.Type{
+	"CircuitBreakers":     reflect.TypeOf([]v2.Thresholds{}),
+	"ClusterWeight":       reflect.TypeOf(v2.ClusterWeightConfig{}),
+	"DelayInject":         reflect.TypeOf(v2.DelayInjectConfig{}),
+	"FaultInject":         reflect.TypeOf(v2.FaultInjectConfig{}),
+	"HealthCheck":         reflect.TypeOf(v2.HealthCheckConfig{}),
+	"HealthCheckFilter":   reflect.TypeOf(v2.HealthCheckFilterConfig{}),
+	"Host":                reflect.TypeOf(v2.HostConfig{}),
+	"KeepAlive":           reflect.TypeOf(v2.KeepAliveConfig{}),
+	"RetryPolicy":         reflect.TypeOf(v2.RetryPolicyConfig{}),
+	"RouteAction":         reflect.TypeOf(v2.RouterActionConfig{}),
+	"Router":              reflect.TypeOf(v2.RouterConfig{}),
+	"SecretConfigWrapper": reflect.TypeOf(v2.SecretConfigWrapperConfig{}),
+}
+
+// wireType: the type whose JSON form a value of t has
+func wireType(t reflect.Type) reflect.Type {
+	if t.PkgPath() == v2Pkg {
+		if w, ok := classified[t.Name()]; ok {
+			return w
+		}
+	}
+	return t
+}
+
 func genericType(t reflect.Type, depth int) bool {
 	if depth > 30 {
 		return false
+	}
+	if w := wireType(t); w != t {
+		return genericType(w, depth+1)
 	}
 	if isHole(t) || t == durCfg {
 		return true
@@ -531,7 +562,8 @@ func caseVariant(r *hx.Rng, k string) string {
 }
 
 func (g *wgen) holeJSON() string {
-	return g.r.PickS([]string{`{}`, `null`, `{"k":1}`, `{"s":"x","n":{"a":[1,"b",true,null]}}`, `{"z":2,"a":{"b":{}}}`, `{"l":[]}`})
+	return g.r.PickS([]string{`{}`, `null`, `{"k":1}`, `{"s":"x","n":{"a":[1,"b",true,null]}}`, `{"z":2,"a":{"b":{}}}`, `{"l":[]}`,
+		`{"zone":"a","version":"1.0"}`, `{"zone":"a","n":1,"e":""}`})
 }
 
 func (g *wgen) wrongKind(t reflect.Type) string {
@@ -553,6 +585,7 @@ func (g *wgen) wrongKind(t reflect.Type) string {
 // value renders a JSON value for Go type t.
 func (g *wgen) value(t reflect.Type, depth int) string {
 	r := g.r
+	t = wireType(t)
 	if isHole(t) {
 		return g.holeJSON()
 	}
@@ -620,6 +653,9 @@ func (g *wgen) value(t reflect.Type, depth int) string {
 
 func (g *wgen) object(t reflect.Type, depth int) string {
 	r := g.r
+	if w := wireType(t); w != t {
+		return g.value(w, depth)
+	}
 	var parts []string
 	dupAt := map[int]int{}
 	var fields []reflect.StructField
